@@ -67,7 +67,10 @@ func c19(env *core.Env) {
 	authBad := false
 	mkEntry := func(tagstr string) c19Entry {
 		var e c19Entry
-		switch c.Int("entry.kind", 9) {
+		switch c.Int("entry.kind", 10) {
+		case 9:
+			// an entry without any credentials
+			shape = append(shape, "empty")
 		case 7:
 			// NUL bytes that are part of the password (only trailing ones are padding)
 			e.Auth = base64.StdEncoding.EncodeToString([]byte("nuluser-" + tagstr + ":\x00lead\x00mid-" + tagstr))
@@ -136,6 +139,10 @@ func c19(env *core.Env) {
 		for _, h := range hosts {
 			if c.Bool("helper.for", 1, 2) {
 				doc.CredHelpers[h] = "helper-" + h[:2]
+				if c.Bool("helper.same-as-store", 1, 4) {
+					// the per-host helper happens to be the program that is also the default store
+					doc.CredHelpers[h] = "store"
+				}
 				shape = append(shape, "credHelper")
 			}
 		}
